@@ -30,5 +30,8 @@ CLAIMED = {
             'the implementation. Not proved / not modelled: concurrent interleavings are sampled (8-32 threads), not enumerated - there is no shared '
             'mutable state in the modelled code, so a future cache or static is caught by the correspondence/oracle, not by the proof; OS atomicity '
             'of fs::copy, clap argument parsing, tempfile, axum/tokio/hyper, --watch.'),
+    'C06': ('Coq proof over Gallina model (theme builder order independence, bit-exact PRNG) + differential correspondence + repeat-run oracle (3 runs x 3 fresh processes, CLI incl. stderr)',
+            'proved: theme builder independent of hash-set iteration order; random stream a function of the seed (prefix-stable, composable, in range). Not modelled in Coq: MultiError display, reuse attribute iteration, the rest of the pipeline - these are covered by the repeat-run oracle only', None),
+    'C20': (T, 'theorems over all class lists / element lists / themes on the model of ThemeBuilder::build instantiated from the generated theme tables; finite side conditions by vm_compute over those tables; text classes are gated on a text element (K50), nested svg in a non-svg root (K52)', None),
 }
 NA = {}
